@@ -39,8 +39,6 @@ val with_next : nrec -> id option -> nrec
 
 val with_owner : nrec -> bool -> nrec
 
-val setf : heap -> id -> (nrec -> nrec) -> heap
-
 type res =
 | ROk of heap
 | RRaise of exn * heap
@@ -77,13 +75,19 @@ val remove_from_caches : heap -> id list -> heap
 
 val is_childless : nrec -> bool
 
+val unlink : (id -> nrec) -> id -> id -> id -> nrec
+
 val remove_child : heap -> id -> id -> res
 
 val bind_res : res -> (heap -> res) -> res
 
 val adopt : heap -> id -> id -> heap
 
+val link_last : (id -> nrec) -> id -> id -> id -> nrec
+
 val append_child : heap -> id -> id -> res
+
+val link_before : (id -> nrec) -> id -> id -> id -> nat -> id -> nrec
 
 val insert_before : heap -> id -> id -> id option -> res
 
